@@ -1,3 +1,4 @@
+import Lean
 import MsqProofs.Lemmas.ParseCase3
 /-!
 # C09, parser half — hand-written part 5: the second `split_run`, `match(*tokens)`, table look-ups by a token
@@ -12,6 +13,83 @@ set_option hygiene false in
 /-- split the hypothesis `h'` about the SECOND run completely (as C08's `split_run` does for `h`) -/
 macro "split_run'" : tactic =>
   `(tactic| repeat' (first | split at h' | (with_reducible have h'' := ite_split h'); clear h'; rcases h'' with ⟨hc', h'⟩ | ⟨hc', h'⟩))
+
+open Lean Elab Tactic Meta in
+/-- lockstep: after the first run has been split, the SHAPE of its cursor is known; a hypothesis `CEL (t :: ts) ys` / `CEL [] ys` with `ys`
+a variable forces the shape of the second cursor.  Doing this before the second run is split removes the impossible pairs of paths
+early (and the negative hypotheses `∀ b c r, ys = b :: c :: r → False` that overlapping patterns would leave behind). -/
+elab "cel_sync" : tactic => do
+  for _ in [0:64] do
+    let g ← getMainGoal
+    let found ← g.withContext do
+      let mut res : Option (FVarId × Nat) := none
+      for ld in ← getLCtx do
+        if ld.isImplementationDetail then continue
+        let ty ← instantiateMVars ld.type
+        if ty.isAppOfArity ``PM.CEL 2 then
+          let a := ty.getArg! 0; let b := ty.getArg! 1
+          if b.isFVar then
+            if a.isAppOfArity ``List.cons 3 then res := some (ld.fvarId, 0)
+            else if a.isAppOfArity ``List.nil 1 then res := some (ld.fvarId, 1)
+          else if a.isFVar then
+            if b.isAppOfArity ``List.cons 3 then res := some (ld.fvarId, 2)
+            else if b.isAppOfArity ``List.nil 1 then res := some (ld.fvarId, 3)
+      return res
+    match found with
+    | none => return
+    | some (fv, k) =>
+      let stx ← g.withContext (Term.exprToSyntax (mkFVar fv))
+      if k == 0 then
+        evalTactic (← `(tactic| (obtain ⟨_, _, hEq, _, _⟩ := PM.cel_cons_left $stx; subst hEq)))
+      else if k == 1 then
+        evalTactic (← `(tactic| (have hnil := PM.cel_nil_left $stx; subst hnil)))
+      else if k == 2 then
+        evalTactic (← `(tactic| (obtain ⟨_, _, hEq, _, _⟩ := PM.cel_cons_right $stx; subst hEq)))
+      else
+        evalTactic (← `(tactic| (have hnil := PM.cel_nil_right $stx; subst hnil)))
+
+open Lean Elab Tactic Meta in
+/-- take every conjunction among the hypotheses apart -/
+elab "split_ands" : tactic => do
+  for _ in [0:64] do
+    let g ← getMainGoal
+    let found ← g.withContext do
+      let mut res : Option FVarId := none
+      for ld in ← getLCtx do
+        if ld.isImplementationDetail then continue
+        let ty ← instantiateMVars ld.type
+        if ty.isAppOfArity ``And 2 then res := some ld.fvarId
+      return res
+    match found with
+    | none => return
+    | some fv =>
+      let stx ← g.withContext (Term.exprToSyntax (mkFVar fv))
+      evalTactic (← `(tactic| obtain ⟨hA, hB⟩ := $stx))
+
+/-- after a `split`: equations between cons cells are taken apart and substituted; a negative hypothesis left by overlapping patterns
+(`∀ b c r, xs = b :: c :: r → False`) whose cursor has become explicit is discharged -/
+macro "ce_norm" : tactic =>
+  `(tactic| ((try simp only [List.cons.injEq, reduceCtorEq, and_imp, forall_eq', forall_eq, imp_false, not_true_eq_false, false_imp_iff,
+      imp_self, forall_const] at *) <;> split_ands <;> (try subst_vars)))
+
+/-- the shape of an optional argument is the same on both sides -/
+theorem optmap_isNone {α β : Type} (f : α → β) (a b : Option α) (h : ceq (Option.map f) a b) : a.isNone = b.isNone := by
+  cases a <;> cases b <;> simp_all
+grind_pattern optmap_isNone => ceq (Option.map f) a b, a.isNone
+theorem optmap_shape {α β : Type} (f : α → β) (a b : Option α) (h : ceq (Option.map f) a b) :
+    (a = none ∧ b = none) ∨ (∃ x y, a = some x ∧ b = some y ∧ f x = f y) := by
+  cases a <;> cases b <;> simp_all
+grind_pattern optmap_shape => ceq (Option.map f) a b
+/-- `upAll` does not change the constructor: what `_parse_table_expression` inspects -/
+theorem upE_subQuery_inv (x : Expr) (q0 : Query) (h : upE x = .subQuery q0) : ∃ q, x = .subQuery q := by
+  cases x <;> simp [upE] at h; exact ⟨_, rfl⟩
+grind_pattern upE_subQuery_inv => upE x, Expr.subQuery q0
+theorem upTR_table_inv (x : TableRef) (s0 : Option String) (n0 : String) (h : upTR x = .table s0 n0) : ∃ s n, x = .table s n := by
+  cases x <;> simp [upTR] at h; exact ⟨_, _, rfl⟩
+grind_pattern upTR_table_inv => upTR x, TableRef.table s0 n0
+theorem upTR_sub_inv (x : TableRef) (q0 : Query) (h : upTR x = .sub q0) : ∃ q, x = .sub q := by
+  cases x <;> simp [upTR] at h; exact ⟨_, rfl⟩
+grind_pattern upTR_sub_inv => upTR x, TableRef.sub q0
 
 theorem matchSeq_ce : ∀ (ks : List String) (ts ts' : List Tok), CEL ts ts' → CER Eq (matchSeq ts ks) (matchSeq ts' ks) := by
   intro ks
